@@ -145,7 +145,7 @@ class Sensor:
         self.validate_child_state(child_id, value_type, value)
 
         child = self.new_state[child_id]
-        child.values[value_type] = value
+        child.values[int(value_type)] = value
 
     def update_child_value(self, child_id, value_type, value):
         """Update a child sensor's local state."""
